@@ -265,3 +265,18 @@ _run_c13b = run
 def run(ctx):  # noqa: F811
     _run_c13b(ctx)
     r13_3(ctx, ctx.model)
+
+
+_run_c13c = run
+
+
+def run(ctx):  # noqa: F811
+    _run_c13c(ctx)
+    from .c18 import sampling_enabler_assembly
+    from .c11 import r11_5
+    ctx.rule("R13.4", "sums sampled through numerical inversion: SamplingEnabler draws s from the INVERSE prior metric and n from the "
+                      "likelihood metric, solves (L+P) x = P s + n starting at s with the matching initial gradient L s - n (or draws "
+                      "the right-hand side from L+P directly and starts at 0) and returns the CG position - so x has covariance "
+                      "(L+P)^-1 (exact linear normal form over L, P and the draws)", floor=5)
+    sampling_enabler_assembly(ctx, ctx.model, "R13.4")
+    r11_5(ctx, ctx.model, rid="R13.5")
